@@ -560,7 +560,8 @@ def run(ctx):
             nontriv = sl["pings_inside"] > 0 and sl["delivered"] > 0
             agg = ctx.extra.setdefault("slowlink", {"sessions": 0, "sessions_with_ping_inside_a_message": 0, "pings_inside_messages": 0,
                                                     "messages_with_ping_inside": 0, "most_pings_in_one_message": 0, "longest_message_fragments": 0,
-                                                    "judged_for_liveness": 0, "messages_delivered": 0, "by_profile_direction_faults": {}})
+                                                    "judged_for_liveness": 0, "messages_delivered": 0, "replayed_through_model": 0,
+                                                    "messages_replayed_as_begin_frag": 0, "not_replayed_second_connect": 0, "by_profile_direction_faults": {}})
             agg["sessions"] += 1
             agg["sessions_with_ping_inside_a_message"] += 1 if sl["pings_inside"] else 0
             agg["pings_inside_messages"] += sl["pings_inside"]
@@ -569,6 +570,9 @@ def run(ctx):
             agg["longest_message_fragments"] = max(agg["longest_message_fragments"], sl["longest_fragments"])
             agg["judged_for_liveness"] += 1 if regime == "slowlink-budget" else 0
             agg["messages_delivered"] += sl["delivered"]
+            agg["replayed_through_model"] += 1 if lines else 0
+            agg["messages_replayed_as_begin_frag"] += sum(1 for l in lines if l.startswith("begin "))
+            agg["not_replayed_second_connect"] += 1 if sl["connect_ids"] > 1 else 0
             k3 = "%s/%s/%s" % (sl["profile"], sl["direction"], sl["faults"])
             agg["by_profile_direction_faults"][k3] = agg["by_profile_direction_faults"].get(k3, 0) + 1
         ctx.case(key=seed, nontrivial=nontriv, tag="%s:%s%s" % (stats.get("enc"), regime, ":connect-failed" if stats.get("connect_error") else ""),
